@@ -118,6 +118,7 @@ func gen(prop, tier string, r *Rng, out *bufio.Writer, st *Stats) {
 		genBigRef(g, r, tier)
 	case "C13":
 		genC13(w, r, tier)
+		genManyAllocs(g, r, tier)
 	case "C14":
 		genC14(w, r, tier)
 		genC14Long(w, r, tier)
